@@ -50,7 +50,7 @@ def _run(args):
         cfg = {'nb_target': mach.nbins_target, 'nb_actual': int(mach.nbins_actual), 'rmin': int(mach.relevant_min),
                'rmax': int(mach.relevant_max), 'nflat': mach.nflatchk, 'crit': mach.flatcrit, 'conv': conv}
         return cfg, trace, [[float(x) for x in row] for row in ret], logs, tape.log
-    st, v = call(f, seconds=300)
+    st, v = call(f, seconds=60 if 'wlt' in os.path.basename(outdir) else 300)
     shutil.rmtree(outdir, ignore_errors=True)
     return st, v
 
@@ -173,6 +173,16 @@ def build(ctx):
         lo = rng.choice([0.0, 0.1, 0.2])
         jobs.append((seq, nb, lo, lo + nb * width, rng.choice([50, 100, 200, 300]), rng.choice([0.1, 0.2, 0.3, 0.5, 0.6]),
                      rng.randint(1, 3), rng.choice([-1, 1]), rng.randrange(10 ** 9), os.path.join(ctx.work, 'wl%d' % i)))
+    # exact ties at a check (emptiest bin holds exactly crit * mean): dyadic criteria with short check periods, and the
+    # boundary criterion 0 (every check with an empty bin is then a tie)
+    for i, (chk, crit) in enumerate([(10, 0.0), (20, 0.0), (10, 0.5), (20, 0.5), (30, 0.25), (40, 0.5)][:ctx.pick(6, 6)]):
+        seq = 'EKEKGGEKEKSSDRKE'[:rng.randint(10, 16)] if i % 2 else gen_seq.polyampholyte(rng, rng.randint(8, 14))
+        if sum(c in 'KR' for c in seq) < 2 or sum(c in 'DE' for c in seq) < 2 or len(set(seq)) < 3:
+            seq = 'EKEKGGEKEKSSDRKE'[:12]
+        nb = rng.randint(2, 3)
+        lo = rng.choice([0.0, 0.1])
+        jobs.append((seq, nb, lo, lo + nb * 0.1, chk, crit, rng.randint(1, 2), rng.choice([-1, 1]), rng.randrange(10 ** 9),
+                     os.path.join(ctx.work, 'wlt%d' % i)))
     res = pmap(_run, jobs, chunk=1)
     cases = []
     ctx.direct_failures = []
